@@ -11,6 +11,7 @@
 #include <time.h>
 #include <stdarg.h>
 #include <signal.h>
+#include <sys/time.h>
 #include <security/pam_modules.h>
 #include <security/pam_ext.h>
 
@@ -60,6 +61,21 @@ ssize_t __wrap_send(int fd, const void *buf, size_t n, int flags)
   return __real_send(fd, buf, n, flags);
 }
 
+/* Signals in the host process while the module waits: PAMDRV_SIGNALS=one:<ms> (one SIGALRM after <ms>) or
+ * stream:<ms> (one every <ms>), handled by a no-op handler installed without SA_RESTART, as an application's own
+ * timers or SIGCHLD would be. */
+static void on_alarm(int sig) { (void)sig; }
+static void arm_signals(void) {
+  const char *g = getenv("PAMDRV_SIGNALS"); if (!g) return;
+  const char *c = strchr(g, ':'); if (!c) return;
+  long ms = atol(c + 1); if (ms <= 0) return;
+  struct sigaction sa; memset(&sa, 0, sizeof sa); sa.sa_handler = on_alarm; sigemptyset(&sa.sa_mask); sigaction(SIGALRM, &sa, NULL);
+  struct itimerval it; memset(&it, 0, sizeof it);
+  it.it_value.tv_sec = ms / 1000; it.it_value.tv_usec = (ms % 1000) * 1000;
+  if (!strncmp(g, "stream", 6)) it.it_interval = it.it_value;
+  setitimer(ITIMER_REAL, &it, NULL);
+}
+
 int main(int argc, char **argv) {
   if (argc < 5) return 2;
   /* SIGPIPE keeps its default disposition: a PAM module must not rely on the host application ignoring it */
@@ -79,6 +95,7 @@ int main(int argc, char **argv) {
     int n = nopt;
     if (tok) { snprintf(sockopt, sizeof sockopt, "sock=%s", tok); opts[n++] = sockopt; }
     struct timespec a, b; clock_gettime(CLOCK_MONOTONIC, &a);
+    arm_signals();
     errno = e;
     int rc = pam_sm_authenticate((pam_handle_t *)0x1, 0, n, opts);
     clock_gettime(CLOCK_MONOTONIC, &b);
